@@ -168,9 +168,13 @@ Definition create_kid st :=
 Definition schema_CreateGroupsNotification := gnotif_c (create_kid s_t_fixed).
 Definition schema_CreateGroupsNotification_prefix := gnotif_c (create_kid s_t_prefix).
 Definition schema_AddGroupsNotification := gnotif_c (K1 (N1 "add" [] DNone participants_list)).
+(* after fixes/C09-remove-groups-mode.patch: the documented mode attribute is read and written back when present *)
 Definition schema_RemoveGroupsNotification :=
-  gnotif_c (K1 (N1 "remove" [req "subject"] DNone participants_list)).
-(* the documented <notification ... mode="none"> of a removal: the attribute is never read *)
+  N1 "notification"
+     ([int "t"; req "from"; A "offline" b10opt EIfNotNone ShOpt d01; const "type" "w:gp2"; req "id";
+       opt "notify"; req "participant"; opt "mode"]) DNone
+     (K1 (N1 "remove" [req "subject"] DNone participants_list)).
+(* before the patch: the documented <notification ... mode="none"> of a removal was never read *)
 Definition schema_RemoveGroupsNotification_mode :=
   N1 "notification"
      ([int "t"; req "from"; A "offline" b10opt EIfNotNone ShOpt d01; const "type" "w:gp2"; req "id";
@@ -453,7 +457,7 @@ Definition registry : list entry := [
   e "SubjectGroupsNotificationProtocolEntity" 0 schema_SubjectGroupsNotification;
   e "CreateGroupsNotificationProtocolEntity" 0 schema_CreateGroupsNotification;
   e "AddGroupsNotificationProtocolEntity" 0 schema_AddGroupsNotification;
-  ev "RemoveGroupsNotificationProtocolEntity" "without mode" 0 0 schema_RemoveGroupsNotification;
+  e "RemoveGroupsNotificationProtocolEntity" 0 schema_RemoveGroupsNotification;
   e "CreateGroupsIqProtocolEntity" 1 schema_CreateGroupsIq;
   e "SuccessCreateGroupsIqProtocolEntity" 0 schema_SuccessCreateGroupsIq;
   e "InfoGroupsIqProtocolEntity" 1 schema_InfoGroupsIq;
@@ -546,12 +550,12 @@ Definition registry : list entry := [
 
 (* faithful schemas of classes that lose something on their documented shape (open findings) *)
 Definition refuted : list entry := [
-  ev "ErrorIqProtocolEntity" "backoff=0" 0 1 schema_ErrorIq_wide;
-  ev "RemoveGroupsNotificationProtocolEntity" "mode attribute" 0 1 schema_RemoveGroupsNotification_mode
+  ev "ErrorIqProtocolEntity" "backoff=0" 0 1 schema_ErrorIq_wide
 ].
 
 (* pre-fix variants, kept so that the regression is recognised if it returns *)
 Definition prefix_variants : list entry := [
+  ev "RemoveGroupsNotificationProtocolEntity" "pre-fix" 0 2 schema_RemoveGroupsNotification_mode;
   ev "NotificationProtocolEntity" "pre-fix" 0 2 schema_Notification_prefix;
   ev "AccountIbProtocolEntity" "pre-fix" 0 2 schema_AccountIb_prefix;
   ev "InfoGroupsResultIqProtocolEntity" "pre-fix" 0 2 schema_InfoGroupsResultIq_prefix;
